@@ -7,12 +7,17 @@
   (iii) the allocator hands out zeroed matrices whatever block is recycled (C14 `fresh_zero`).
   The model is a pure function of operand VALUES by construction; that the C code is too is what the correspondence run
   under different heap fills (0xFF / 0xA5 / PRNG, freed memory poisoned) and histories measures.
+  Added (M4riProofs/MulW.lean): word-level statements of (ii) — the prior content of the table storage, the `stale`
+  parity words of `_mzd_mul_naive`, `junk` behind L and the excess bits of A, B, C are all universally quantified in
+  `m4rmW_spec`, `mulNaiveTW_spec`, `makeTableW_sim`; `mulNaiveTW_needs_padZero` shows that the one place where padding
+  is READ as data (the already transposed operand of `_mzd_mul_naive`) really needs the zero padding invariant.
 -/
 import M4riProofs.W.DataMove
 import M4riProofs.Bridge
 import M4riProofs.Gray
 import M4riProofs.Props.C01
 import M4riProofs.Alloc
+import M4riProofs.MulW
 namespace M4ri.Props.C10
 open M4ri M4ri.Mzd
 
@@ -47,5 +52,11 @@ theorem product_independent_of_junk_and_destination (C C' A B : BMat) (k auto au
 
 #check @M4ri.Props.C01.mul_strassen
 #check @M4ri.Alloc.fresh_zero
+
+#check @M4ri.Mzd.W.m4rmW_spec
+#check @M4ri.Mzd.W.mulNaiveTW_spec
+#check @M4ri.Mzd.W.mulNaiveTW_needs_padZero
+#check @M4ri.Mzd.W.makeTableW_sim
+#check @M4ri.Mzd.W.makeTableW_toB
 
 end M4ri.Props.C10
